@@ -32,7 +32,10 @@ CHAINS = [dyn.CHAIN_FULL, dyn.CHAIN_KEYDOOR, dyn.CHAIN_OBST, dyn.CHAIN_TELEPORT]
 
 
 def stateful(o):
-    return bool(getattr(o, '__dict__', None))
+    """an object that CAN hold per-instance state (it has an instance dictionary): writing to it through one state would
+    show through every other state that holds the same object.  A truly immutable shared object (__slots__ = ()) is not
+    a mutable component and is not counted."""
+    return hasattr(o, '__dict__')
 
 
 def mutable_ids(st):
@@ -122,8 +125,37 @@ def judge(names, s, a):
             return n, True, 'the returned next state does not equal / hash like a freshly built equal state', dict(sig, law='copy_hash')
         if first is None:
             first = st2
+            first_choices = choices
     if first is not None:
         k2 = sdesc(first)
+        # the step's private copy is a copy of THE STATE PASSED IN: the same chain run in place on a freshly built equal
+        # state, with the same random script, ends in the same state (differential against the in-place functions)
+        st_p = mkstate(s)
+        try:
+            dyn.chain_fn(names)(st_p, dyn.ACT[a], rng=ChoiceRng(first_choices))
+            kp = sdesc(st_p)
+        except Exception:  # noqa: BLE001 -- totality is C01's business
+            kp = k2
+        n += 1
+        if kp != k2:
+            return n, True, ('functional_step returned a next state that differs from running the same transition functions in '
+                             'place on an equal state with the same random script'), dict(sig, law='copy_of_input')
+        # second generation: a state that is itself the product of a step is stepped again; what it shares with its own
+        # successor is judged exactly as for a hand-built state
+        env._rng = ChoiceRng([])
+        try:
+            third = env.functional_step(first, dyn.ACT[a])[0]
+        except Exception:  # noqa: BLE001
+            third = None
+        n += 1
+        if sdesc(first) != k2:
+            return n, True, 'functional_step modified an input state that was itself produced by a step', dict(sig, law='no_mutation')
+        if third is not None:
+            shared = set(mutable_ids(first)) & set(mutable_ids(third))
+            if shared:
+                what = sorted({mutable_ids(first)[i] for i in shared})
+                return n, True, (f'the successor of a state that was itself produced by a step shares mutable components with '
+                                 f'it: {what}'), dict(sig, law='no_sharing')
         # (ii) differential, both directions
         scramble(first)
         if sdesc(st) != s:
@@ -495,8 +527,8 @@ def run(rep, tier, seed):
         if m:
             rep.violation({'kind': 'stateful_functional', 'config': name, 'seed': seed + 2, 'sig': {'part': 'stateful_then_functional'}}, m)
     rep.sample({'kind': 'history', 'seq': [7, 9, 8, 7], 'prologue': True})
-    rep.assume('aliasing of objects without instance state (Floor, Wall, MovingObstacle) is not counted as sharing a mutable '
-               'component; observations may share cell objects with the state (only modification is forbidden)')
+    rep.assume('an object counts as a mutable component when it has an instance dictionary (it can be written to), Floor and '
+               'Wall included; observations may share cell objects with the state (only modification is forbidden)')
     return rep.finish(
         states=tot['states'] + rs,
         transitions=tot['exec'] + hn + rt,
